@@ -512,6 +512,12 @@ func evalAtom(e *SExpr, ps *PathState, rf RangeFn) (Tri, *PathState, *PathState)
 		if v, ok := ps.Bools[key]; ok {
 			return tri(v), nil, nil
 		}
+		// one fact under two names (walk.go: linkedAtom)
+		if other, ok := linkedAtom(key); ok {
+			if ov, has := ps.Bools[other]; has {
+				return tri(!ov), nil, nil
+			}
+		}
 		t, f := ps.Clone(), ps.Clone()
 		t.Bools[key] = true
 		f.Bools[key] = false
